@@ -756,7 +756,10 @@ func (db *DB) searchAll(o Object, field, operator string, value interface{}, con
 	fp := fieldPath(field)
 	searchType := search.valueTypeString()
 
-	for obj, err := iter.next(); err == nil && err != ErrEOI; obj, err = iter.next() {
+	var obj Object
+
+	// err must not be shadowed: an object which cannot be read makes the search fail
+	for obj, err = iter.next(); err == nil; obj, err = iter.next() {
 		var test *indexedField
 		var value interface{}
 		var ok bool
